@@ -330,6 +330,9 @@ impl Subject for C06 {
         self.refills >= 1 && self.hist.iter().any(|h| h.3) && self.hist.iter().any(|h| !h.3)
     }
     fn outcome(&self) -> String {
+        if self.cfg.script_capacity.is_some() {
+            return format!("scripted:{}A{}R", self.hist.iter().filter(|h| h.3).count(), self.hist.iter().filter(|h| !h.3).count());
+        }
         self.hist.iter().map(|h| if h.3 { 'A' } else { 'R' }).collect()
     }
     fn counters(&self) -> Vec<(&'static str, u64)> {
